@@ -1160,6 +1160,7 @@ def compute_z_zprime_Q2d(cm0, ams, bms, u, t):
     """
     # sag and slopes are floating point, also on an integer grid
     u = np.asarray(u, dtype=np.result_type(u, 1.0))
+    t = np.asarray(t, dtype=np.result_type(t, 1.0))
     usq = u * u
     z = np.zeros_like(u)
     dr = np.zeros_like(u)
